@@ -88,6 +88,12 @@ func runOne(b *BatchResult, a *runArgs, run uint64) {
 			p = wgParams{nRandom: 48, tinyPerms: true}
 		}
 		wgRunOne(b, a.Property, a.Seed, run, p)
+	case "mergesim":
+		n := 6
+		if a.Tier == "thorough" {
+			n = 40
+		}
+		mergeRunOne(b, a.Property, a.Seed, run, n)
 	case "plainsim":
 		n := 6
 		if a.Tier == "thorough" {
